@@ -114,6 +114,25 @@ def run_case(ctx, idx, X, y, ncls, bk, nm, alpha, kws, custom_U):
         model = SSPOC(basis=Custom(custom_U.copy(), n_basis_modes=nm).fit(), l1_penalty=alpha, n_sensors=min(2, nf))
     else:
         model = SSPOC(basis=models.make_basis(bk, nm), l1_penalty=alpha, n_sensors=min(2, nf))
+    how = ctx.rng.choice(["ctor", "ctor", "set_params", "clone_set_params", "attribute"])
+    if custom_U is not None and how != "ctor":
+        how = "attribute"            # (a Custom basis does not support get_params – outside every property here)
+    if not isinstance(alpha, (int, float)):
+        how = "ctor"
+    if how != "ctor":
+        # the sparsity weight as a hyper-parameter search sets it (clone + set_params) or as a user changes it before a fit: the
+        # weight in effect is l1_penalty at the time of the fit
+        other = 0.37 if abs(float(alpha) - 0.37) > 1e-9 else 0.11
+        kw0 = dict(basis=model.basis, l1_penalty=other, n_sensors=min(2, nf))
+        model = SSPOC(**kw0)
+        if how == "set_params":
+            model.set_params(l1_penalty=alpha)
+        elif how == "clone_set_params":
+            from sklearn.base import clone
+            model = clone(model).set_params(l1_penalty=alpha)
+        else:
+            model.l1_penalty = alpha
+        ctx.count("l1_penalty_set_after_construction:" + how)
     import pysensors.utils._optimizers as om
     seen = []
     orig_mtl = om.MultiTaskLasso
